@@ -82,6 +82,7 @@ type scen struct {
 	outcomes  []string
 	cancelAt  bool          // a cancel event that may fire at any moment
 	slowFirst time.Duration // the first upload stays in flight this long
+	big       bool          // the initial database holds a large secret (so a later delete shrinks the file)
 	horizon   time.Duration
 }
 
@@ -111,6 +112,9 @@ func (sc scen) harness() func() *sched.Harness {
 					panic(err)
 				}
 				d.Put(hx.Super(), "a", []byte("initial"))
+				if sc.big {
+					d.Put(hx.Super(), "big", bytes.Repeat([]byte("0123456789abcdef"), 256))
+				}
 				b, _ := os.ReadFile(path)
 				versions = append(versions, b)
 				rt = &s3rt{start: start, outcomes: sc.outcomes, slowFirst: sc.slowFirst}
@@ -142,7 +146,12 @@ func (sc scen) harness() func() *sched.Harness {
 								continue
 							}
 							n++
-							if _, err := d.Put(hx.Super(), "a", []byte(fmt.Sprintf("value-%d", n))); err != nil {
+							if a == "delbig" {
+								// a write that makes the file shorter than the one uploaded before
+								if err := d.Delete(hx.Super(), "big"); err != nil {
+									x.Fail("harness: delete: %v", err)
+								}
+							} else if _, err := d.Put(hx.Super(), "a", []byte(fmt.Sprintf("value-%d", n))); err != nil {
 								x.Fail("harness: put: %v", err)
 							}
 							b, _ := os.ReadFile(path)
@@ -273,6 +282,7 @@ func TestCheck(t *testing.T) {
 		{name: "writes at 30s and 100s, uploads may fail", writer: []string{"sleep:30s", "put", "sleep:70s", "put"}, outcomes: []string{"ok", "fail"}, horizon: 460 * time.Second},
 		{name: "cancellation at any moment, one write", writer: []string{"sleep:30s", "put"}, cancelAt: true, horizon: 300 * time.Second},
 		{name: "cancellation at any moment while idle", cancelAt: true, horizon: 200 * time.Second},
+		{name: "file shrinks between uploads (large secret deleted at 30s, put at 100s)", writer: []string{"sleep:30s", "delbig", "sleep:70s", "put"}, big: true, horizon: 400 * time.Second},
 		{name: "first upload in flight for 90s, writes at 30s and 100s", writer: []string{"sleep:30s", "put", "sleep:70s", "put"}, slowFirst: 90 * time.Second, horizon: 520 * time.Second},
 	}
 	var list []hx.Scenario
